@@ -64,8 +64,11 @@ def program(g, i):
     attrs = []
     rev = "revattr" in M
     if skip: attrs.append("skip_type_params(" + ", ".join(sorted(skip, reverse=rev)) + ")")
+    ENC = {"direct", "vec", "opt", "arr", "tup", "box", "result", "selfmix", "compactp"}      # specs/MC_Generic.tla Encoding
+    usedenc = {p: any(t in ENC and q == p for t, q in fields) or bool(lts and p == params[0] and p not in skip) for p in params}
     if "custom" in M:
-        bs = ["%s: TypeInfo + 'static" % p for p in params if p not in skip]
+        # the custom predicates: every non-skipped parameter and every (skipped) parameter that is part of the encoding
+        bs = ["%s: TypeInfo + 'static" % p for p in params if p not in skip or usedenc[p]]
         for t, p in fields:
             if t in NEEDS_CFG: bs.append("%s::A: TypeInfo + 'static" % p)
             if t in NAMED: bs.append("%s::%s: TypeInfo + 'static" % (p, name))
@@ -90,7 +93,7 @@ def program(g, i):
     # instantiation satisfying the premise: skipped parameters get types WITHOUT TypeInfo
     inst = {}
     for p in params:
-        if p in skip:
+        if p in skip and not usedenc[p]:
             need_cd = "inline" in M or "where" in M
             inst[p] = ("RC" if need_cd else "R") if (cfg[p] or namedp[p]) else ("NC" if need_cd else "NoInfo")
         else:
